@@ -376,27 +376,19 @@ def _dirsuffix(ck: Checker) -> None:
     prog = ck.prog
     dg = prog.func("hashfile.tree", "Tree.digest")
     g = ck.cfg(dg)
-    pipes = [(n, c) for n in g.nodes.values() for c in calls_at(n) if is_method_call(c, "pipe_file", "pipe") and len(c.args) >= 2]
-    hcalls = [(n, c) for n in g.nodes.values() for c in calls_at(n) if call_name(c) == "hash_file"]
-    ck.floor("C01.dirsuffix", len(hcalls), 1, "hash_file calls in Tree.digest")
-    hn, hc = hcalls[0]
-    hp = norm(hc.args[0])
-    wrote = [(n, c) for n, c in pipes if norm(c.args[0]) == hp]
-    ok = bool(wrote) and all(norm(c.args[1]) == "self.as_bytes()" for _n, c in wrote) and all(avoiding_path(g, hn.id, lambda x, n=n: x.id == n.id) is None for n, _c in wrote)
-    ck.require(ok, "C01.dirsuffix", dg, hn, "the hashed scratch file holds exactly self.as_bytes() (no metadata)", f"the bytes hashed for the directory id are not self.as_bytes(): {[norm(c.args[1]) for _n, c in wrote]}", construct="digest / hashed bytes")
-    sfx = [n for n in g.nodes.values() if n.kind == "stmt" and isinstance(n.ast, ast.AugAssign) and norm(n.ast.target) == "self.hash_info.value" and isinstance(n.ast.op, ast.Add)]
-    oks = len(sfx) == 1 and isinstance(sfx[0].ast.value, (ast.Constant, ast.Name)) and (getattr(sfx[0].ast.value, "value", None) == ".dir" or norm(sfx[0].ast.value) == "HASH_DIR_SUFFIX")
-    if oks:
-        from ..an import count_on_paths
+    from .tree_common import digest_model
 
-        lo, hi, _ = count_on_paths(g, [(g.entry, None)], {g.exit}, lambda x: 1 if x.id == sfx[0].id else 0)
-        oks = lo == 1 and hi == 1
-    ck.require(oks, "C01.dirsuffix", dg, sfx[0] if sfx else dg.node, "the '.dir' suffix is appended exactly once on every path", "the directory suffix is not appended exactly once to the digest", construct="hash_info.value += '.dir'")
-    oid = [n for n in g.nodes.values() if n.kind == "stmt" and isinstance(n.ast, ast.Assign) and norm(n.ast.targets[0]) == "self.oid"]
-    oko = bool(oid) and all(norm(n.ast.value) == "self.hash_info.value" for n in oid) and bool(sfx) and all(avoiding_path(g, n.id, lambda x: x.id == sfx[0].id) is None for n in oid)
-    ck.require(oko, "C01.dirsuffix", dg, oid[0] if oid else dg.node, "oid is assigned from the suffixed value", "Tree.oid is not the suffixed hash value (assigned before the suffix or from something else)", construct="self.oid = self.hash_info.value")
-    hi_assign = [n for n in g.nodes.values() if n.kind == "stmt" and isinstance(n.ast, ast.Assign) and "self.hash_info" in [norm(t) for t in ast.walk(n.ast.targets[0]) if isinstance(t, ast.Attribute)]]
-    ck.require(any(n.ast.value is hc for n in hi_assign), "C01.dirsuffix", dg, hn, "hash_info is the result of hashing the listing", "self.hash_info is not taken from hash_file(listing)", construct="_, self.hash_info = hash_file(...)")
+    dm = digest_model(ck)
+    ck.floor("C01.dirsuffix", len(dm.hcalls), 1, "hash_file calls in Tree.digest")
+    hn, hc = dm.hn, dm.hc
+    hp = norm(dm.path) if dm.path is not None else None
+    wrote = [(n, c, a1) for n, c, a0, a1 in dm.pipes if norm(a0) == hp]
+    ok = bool(wrote) and all(norm(a1) == "self.as_bytes()" for _n, _c, a1 in wrote) and all(avoiding_path(g, hn.id, lambda x, n=n: x.id == n.id) is None for n, _c, _a in wrote)
+    ck.require(ok, "C01.dirsuffix", dg, hn, "the hashed scratch file holds exactly self.as_bytes() (no metadata)", f"the bytes hashed for the directory id are not self.as_bytes(): {[norm(a1) for _n, _c, a1 in wrote]}", construct="digest / hashed bytes")
+    sfx = [n for n, _ok in dm.suffix_nodes]
+    ck.require(dm.suffix_once, "C01.dirsuffix", dg, sfx[0] if sfx else dg.node, "the '.dir' suffix is appended exactly once on every path", "the directory suffix is not appended exactly once to the digest", construct="hash_info.value += '.dir'")
+    ck.require(dm.oid_ok, "C01.dirsuffix", dg, dm.oid_nodes[0] if dm.oid_nodes else dg.node, "oid is assigned from the suffixed value", "Tree.oid is not the suffixed hash value (assigned before the suffix or from something else)", construct="self.oid = self.hash_info.value")
+    ck.require(dm.result_bound, "C01.dirsuffix", dg, hn, "hash_info is the result of hashing the listing", "self.hash_info is not taken from hash_file(listing)", construct="_, self.hash_info = hash_file(...)")
     ht = prog.func("hashfile.db.migrate", "_hash_task")
     g2 = ck.cfg(ht)
     sf2 = [n for n in g2.nodes.values() if n.kind == "stmt" and isinstance(n.ast, ast.AugAssign) and norm(n.ast.target).endswith(".value")]
